@@ -1,10 +1,16 @@
 package main
 
 import (
+	"context"
 	"crypto/tls"
 	"fmt"
+	"net"
+	"sync/atomic"
 	"time"
 
+	kmip "github.com/smira/go-kmip"
+
+	"kvharness/internal/rec"
 	"kvharness/internal/tlsm"
 )
 
@@ -42,3 +48,83 @@ func c10Probes(r *Result) {
 		}
 	}
 }
+
+// c10StalledHandshake: "concurrent connections keep being served correctly" while a peer sits IN its TLS handshake - it has
+// connected and says nothing, or sent the first bytes of a record and stopped - and keeps its socket open. The next peer to
+// connect completes its handshake and gets its answer promptly, with and without server timeouts (the stalled peer's own
+// timeout, if any, is longer than the wait allowed here).
+func c10StalledHandshake(r *Result) {
+	ca := tlsm.NewCA("c10-ca")
+	serverCert := tlsm.Leaf(ca, tlsm.LeafOpts{Host: "kmip.test"})
+	for _, to := range []time.Duration{0, 30 * time.Second} {
+		for _, probe := range []string{"silent", "partial-hello"} {
+			key := fmt.Sprintf("TLS server (timeouts %v), one peer stalls in the handshake (%s) and stays connected, a second peer connects", to, probe)
+			crumb("C10 " + key)
+			r.eval(key, true)
+			cfg := &tls.Config{Certificates: []tls.Certificate{serverCert}, ClientCAs: ca.Pool}
+			c16ServerPrep(cfg)
+			var calls int32
+			s := &kmip.Server{TLSConfig: cfg, ReadTimeout: to, WriteTimeout: to}
+			s.Handle(kmip.OPERATION_ACTIVATE, func(ctx *kmip.RequestContext, item *kmip.RequestBatchItem) (interface{}, error) {
+				atomic.AddInt32(&calls, 1)
+				return kmip.ActivateResponse{UniqueIdentifier: "x"}, nil
+			})
+			sa, ca1 := rec.Pipe()
+			sb, cb := rec.Pipe()
+			l := rec.NewListener()
+			l.Push(rec.AcceptStep{Conn: tls.Server(rec.NewConn(sa, 1), cfg)})
+			l.Push(rec.AcceptStep{Conn: tls.Server(rec.NewConn(sb, 2), cfg)})
+			init := make(chan struct{})
+			ret := make(chan error, 1)
+			go func() { ret <- s.Serve(l, init) }()
+			<-init
+			if probe == "partial-hello" {
+				_, _ = ca1.Write([]byte{0x16, 0x03, 0x01, 0x02, 0x00, 0x01})
+			}
+			time.Sleep(20 * time.Millisecond)
+			served := make(chan string, 1)
+			go func() {
+				_ = cb.SetDeadline(time.Now().Add(4 * time.Second))
+				leaf := tlsm.Leaf(ca, tlsm.LeafOpts{Host: "client.test", Client: true})
+				tc := tls.Client(cb, &tls.Config{RootCAs: ca.Pool, ServerName: "kmip.test", Certificates: []tls.Certificate{leaf}})
+				if err := tc.Handshake(); err != nil {
+					served <- "handshake: " + err.Error()
+					return
+				}
+				req := kmip.Request{Header: kmip.RequestHeader{Version: kmip.ProtocolVersion{Major: 1, Minor: 4}, BatchCount: 1},
+					BatchItems: []kmip.RequestBatchItem{{Operation: kmip.OPERATION_ACTIVATE, RequestPayload: kmip.ActivateRequest{UniqueIdentifier: "a"}}}}
+				var resp kmip.Response
+				if err := kmip.NewEncoder(tc).Encode(&req); err != nil {
+					served <- "send: " + err.Error()
+				} else if err := kmip.NewDecoder(tc).Decode(&resp); err != nil {
+					served <- "receive: " + err.Error()
+				} else if len(resp.BatchItems) != 1 || resp.BatchItems[0].ResultStatus != kmip.RESULT_STATUS_SUCCESS {
+					served <- "unexpected response"
+				} else {
+					served <- "served"
+				}
+			}()
+			got := ""
+			select {
+			case got = <-served:
+			case <-time.After(6 * time.Second):
+				got = "no answer within 6s"
+			}
+			if got != "served" || atomic.LoadInt32(&calls) != 1 {
+				r.find(Finding{Kind: "violation", What: "a peer stalling in its TLS handshake kept another connection from being served", Input: key, Expect: "second peer served (handler calls = 1)", Actual: fmt.Sprintf("%s (handler calls = %d)", got, atomic.LoadInt32(&calls))})
+			}
+			ca1.Close()
+			cb.Close()
+			ctx, cancel := context.WithTimeout(context.Background(), 5*time.Second)
+			_ = s.Shutdown(ctx)
+			cancel()
+			select {
+			case <-ret:
+			case <-time.After(5 * time.Second):
+			}
+			r.Stats["tls-stalled-handshake-scenarios"]++
+		}
+	}
+}
+
+var _ net.Conn
